@@ -131,4 +131,42 @@ mod verif_c07 {
         assert!(!(IsoTerm(a) == IsoTerm(x)));
         kani::cover!(want && matches!(ta[0], K::Atom(1, _)));
     }
+
+    fn quoted_one_position(pos: usize) {
+        // one symbolic position (a pair of atoms), the two others fixed and equal
+        let (x, y) = (any_atom(), any_atom());
+        let f = K::Atom(0, [b'f']);
+        let mut ta = [f, f, f];
+        let mut tb = [f, f, f];
+        ta[pos] = x;
+        tb[pos] = y;
+        let (a, b) = (K::Quoted(&ta), K::Quoted(&tb));
+        let want = ref_eq_atom(&x, &y);
+        assert!((IsoTerm(a) == IsoTerm(b)) == want);
+        let c = Ord::cmp(&IsoTerm(a), &IsoTerm(b));
+        assert!((c == Ordering::Equal) == want);
+        assert!(Ord::cmp(&IsoTerm(b), &IsoTerm(a)) == c.reverse());
+        kani::cover!(want && matches!(x, K::Atom(1, _)));
+    }
+
+    //@STUBS
+    #[kani::proof]
+    #[kani::unwind(6)]
+    fn c07_isoterm_quoted_subject() {
+        quoted_one_position(0);
+    }
+
+    //@STUBS
+    #[kani::proof]
+    #[kani::unwind(6)]
+    fn c07_isoterm_quoted_predicate() {
+        quoted_one_position(1);
+    }
+
+    //@STUBS
+    #[kani::proof]
+    #[kani::unwind(6)]
+    fn c07_isoterm_quoted_object() {
+        quoted_one_position(2);
+    }
 }
